@@ -404,7 +404,10 @@ Section WRITER.
     (* 13 ml_class *)
     assert (A13 : check_ml_class g n = []).
     { unfold check_ml_class. change (f_feats g) with (f_feats f).
-      replace (existsb _ (f_feats f)) with false; [reflexivity|].
+      replace (existsb (fun ft => match ft_data ft with
+                                  | MlScore l bad => _
+                                  | _ => false end) (f_feats f)) with false;
+        [rewrite andb_false_r; reflexivity|].
       symmetry. apply existsb_false_iff. intros ft Hft.
       specialize (Hsp ft Hft). specialize (Hlen ft Hft).
       destruct (ft_data ft); try reflexivity. cbn [flen] in Hlen.
